@@ -26,6 +26,10 @@ for _p, (_t, _s) in EXTRA2.items():
     if _p in CLAIMED:
         CLAIMED[_p]['technique'] += _t
         CLAIMED[_p]['text'] += _s
+for _p, (_t, _s) in EXTRA3.items():
+    if _p in CLAIMED:
+        CLAIMED[_p]['technique'] += _t
+        CLAIMED[_p]['text'] += _s
 
 props = [json.loads(l)['id'] for l in open(os.path.join(HERE, 'properties.jsonl'))]
 checks = []
